@@ -333,8 +333,17 @@ def aperture_setters(rep, r, n):
                 p2['cx'], p2['cy'] = p['cx'] + 1.5, p['cy'] - 2.0
                 ap.positions = (p2['cx'], p2['cy'])
             elif which == 'theta' and not kind.startswith('circ'):
-                p2['theta'] = p['theta'] + 0.5
-                ap.theta = p2['theta']
+                p2.pop('theta_q', None)
+                if r.random() < 0.5:
+                    p2['theta'] = p['theta'] + 0.5
+                    ap.theta = p2['theta']
+                else:
+                    # the new angle arrives as a Quantity in degrees (the reference aperture is built from the same Quantity)
+                    import astropy.units as u
+                    deg = r.choice([90.0, 30.0, -45.0, 135.0])
+                    p2['theta_q'] = [deg, 'deg']
+                    p2['theta'] = float((deg * u.deg).to(u.radian).value)
+                    ap.theta = deg * u.deg
             else:
                 p2['size'] = p['size'] * 1.5
                 ref_tmp = make_aperture(kind, p2)
@@ -456,6 +465,9 @@ def run(rep, tier):
     aperture_setters(rep, r, 40 * scale)
     gridded_history(rep, r, 24 * scale)
     ellipse_calls(rep, r)
+    # model / residual images of (Iterative)PSFPhotometry in either call order vs fresh objects (shared with C18)
+    from props import c18
+    c18.iterative_images(rep, r, 3 * scale)
 
 
 def replay(rep, data):
